@@ -32,7 +32,21 @@ type c13Case struct {
 	// Cause: the context carries a cancellation cause (WithCancelCause / WithTimeoutCause); Run must still return the
 	// context's error (ctx.Err()), not the cause
 	Cause bool `json:"cause,omitempty"`
+	// Foreign: Run is handed a context that is not one of the context package's own types (a host's wrapper with its
+	// own methods); everything the property says holds for it as well
+	Foreign bool `json:"foreign,omitempty"`
 }
+
+// foreignCtx delegates to a context of the standard library but is a type of its own.
+type foreignCtx struct{ inner context.Context }
+
+func (f foreignCtx) Deadline() (time.Time, bool) { return f.inner.Deadline() }
+func (f foreignCtx) Done() <-chan struct{}       { return f.inner.Done() }
+func (f foreignCtx) Err() error                  { return f.inner.Err() }
+
+// Value does not delegate: the context package recognises its own types behind a wrapper through a private key, and
+// would then treat the wrapper like one of its own.
+func (f foreignCtx) Value(k any) any { return nil }
 
 var errC13Cause = errors.New("operator pressed stop")
 
@@ -67,6 +81,10 @@ func (r *c13Rig) load(c *c13Case) {
 	case "jp":
 		put(0xC3, uint8(c.PC), uint8(c.PC>>8))
 	case "nops":
+	case "halt": // the program is over at once
+		put(0x76)
+	case "nophalt":
+		put(0x00, 0x00, 0x76)
 	case "ldir": // LD HL,0x4000; LD DE,0x5000; LD BC,0; LDIR; JP start
 		put(0x21, 0x00, 0x40, 0x11, 0x00, 0x50, 0x01, 0x00, 0x00, 0xED, 0xB0, 0xC3, uint8(c.PC), uint8(c.PC>>8))
 	case "otir": // LD HL,0x4000; LD BC,0x0007; OTIR; JR start
@@ -190,12 +208,25 @@ func (r *c13Rig) runCtx(c *c13Case, parent context.Context) c13Outcome {
 			}
 		}
 	}
+	if c.Pending == "nmi-storm" {
+		// a device that raises a fresh non-maskable request at every bus access: every Step is an acknowledge (whose
+		// push raises the next one), and Run is an endless series of such Steps that a cancellation must still end
+		inner := r.m.hook
+		r.m.hook = func(k int) {
+			r.cpu.Interrupt = z80.NMIInterrupt()
+			inner(k)
+		}
+	}
+	runCtx := ctx
+	if c.Foreign {
+		runCtx = foreignCtx{ctx}
+	}
 	done := make(chan error, 1)
 	go func() {
 		defer func() {
 			// Goexit path: never sends; the waiter has given up already
 		}()
-		done <- r.cpu.Run(ctx)
+		done <- r.cpu.Run(runCtx)
 	}()
 	var err error
 	select {
@@ -244,6 +275,9 @@ func (r *c13Rig) runCtx(c *c13Case, parent context.Context) c13Outcome {
 	}
 	// whole number of Steps: replay with Step until the same number of accesses
 	r.initCPU(c, &r.twin, &r.tm)
+	if c.Pending == "nmi-storm" {
+		r.tm.hook = func(int) { r.twin.Interrupt = z80.NMIInterrupt() }
+	}
 	target := r.m.nAcc
 	steps := 0
 	for r.tm.nAcc < target {
@@ -378,9 +412,9 @@ func TestC13(t *testing.T) {
 				c.Prog = genProgram(t, 8)
 				c.Instant = rapid.SampledFrom([]string{"pre", "hook", "timer", "timeout", "never", "never"}).Draw(t, "instant")
 			} else {
-				c.Loop = rapid.SampledFrom([]string{"jr", "jp", "nops", "ldir", "otir", "djnz", "jpix", "ldra", "ldirix", "body", "body", "prefixes"}).Draw(t, "loop")
+				c.Loop = rapid.SampledFrom([]string{"jr", "jp", "nops", "ldir", "otir", "djnz", "jpix", "ldra", "ldirix", "body", "body", "prefixes", "halt", "nophalt"}).Draw(t, "loop")
 				if c.Loop != "body" {
-					c.Pending = rapid.SampledFrom([]string{"", "", "", "", "", "", "int", "int", "im0-halt", "im0-jr", "im0-nop", "im0-rst"}).Draw(t, "pending")
+					c.Pending = rapid.SampledFrom([]string{"", "", "", "", "", "", "int", "int", "im0-halt", "im0-jr", "im0-nop", "im0-rst", "nmi-storm"}).Draw(t, "pending")
 				}
 				c.PC = rapid.SampledFrom([]uint16{0x0100, 0xFFFE, 0x0000, 0x7000}).Draw(t, "pc")
 				c.R = int(rapid.OneOf(rapid.SampledFrom([]uint8{0, 1, 0x7F, 0x80, 0xFF}), rapid.Uint8()).Draw(t, "r"))
@@ -389,13 +423,24 @@ func TestC13(t *testing.T) {
 					c.Body = genLoopBody(t)
 				}
 				c.Instant = rapid.SampledFrom([]string{"pre", "hook", "hook", "timer", "timeout"}).Draw(t, "instant")
+				if (c.Loop == "halt" || c.Loop == "nophalt") && (c.Pending == "im0-rst" || c.Pending == "im0-jr" || c.Pending == "nmi-storm") {
+					c.Pending = "" // (these lead away from the HALT: the program would not be a terminating one)
+				}
+				if c.Loop == "halt" || c.Loop == "nophalt" {
+					// the program is over after one to three Steps: the race between its end and the cancellation
+					c.Instant = rapid.SampledFrom([]string{"pre", "pre", "timer", "timeout", "never", "hook"}).Draw(t, "instantShort")
+				}
 			}
 			c.Cause = c.Instant != "never" && rapid.IntRange(0, 3).Draw(t, "cause") == 0
+			c.Foreign = rapid.IntRange(0, 3).Draw(t, "foreign") == 0
 			switch c.Instant {
 			case "hook":
 				c.N = rapid.IntRange(1, 3000).Draw(t, "hookAt")
 			case "timer", "timeout":
 				c.N = rapid.IntRange(0, 2000).Draw(t, "micros")
+			}
+			if c.Loop == "halt" || c.Loop == "nophalt" {
+				c.N = c.N%5 + 1
 			}
 			parent := context.Background()
 			if i%2 == 1 {
@@ -409,6 +454,12 @@ func TestC13(t *testing.T) {
 			col.Label("instant:" + c.Instant)
 			if c.Cause {
 				col.Label("context-with-cause")
+			}
+			if c.Foreign {
+				col.Label("context-of-a-foreign-type")
+			}
+			if c.Pending != "" {
+				col.Label("pending:" + c.Pending)
 			}
 			switch o.err {
 			case nil:
